@@ -394,8 +394,12 @@ def gen_sop(rng, r, p_series=0.35, bad_rate=0.06, max_rows=9):
             else:
                 myids = set(int(x) for x in dm._rowid)
                 cands = [j for j, q in enumerate(P) if q._id == dm._id and set(int(x) for x in q._rowid) <= myids]
-                if rng.random() < bad_rate:
+                c_ = rng.random()
+                if c_ < bad_rate:
                     cands = [j for j, q in enumerate(P) if q._id != dm._id] or cands
+                elif c_ < 2 * bad_rate and d >= 1:
+                    cands = [j for j, q in enumerate(P) if q._id == dm._id
+                             and not set(int(x) for x in q._rowid) <= myids] or cands
                 if not cands:
                     continue
                 t2 = rng.choice(cands)
